@@ -324,6 +324,37 @@ pub fn run(tier: &str) -> i32 {
         rep.sub("full-cover-then-override", "a 25-token list covering all 1326 combos (22+, X2s+ and X2o+ for every high card) followed by 0..=6 overriding tokens in every rotation", n, n, false, json!({}));
     }
 
+    // (d4) very long token lists: every token counts, however many there are
+    {
+        let find = |s: &str| all.iter().find(|t| t.text == s).copied().unwrap();
+        let combos = all_combos();
+        let mut cases: Vec<(String, Contents)> = vec![];
+        // an explicit 1326-combo export followed by overriding tokens
+        let mut l: Vec<(&Tok, &str)> = combos.iter().map(|c| (cpt.iter().find(|t| t.combos[0] == *c).unwrap(), ":0.5")).collect();
+        l.push((find("AA"), ":0.25"));
+        l.push((find("72o"), ""));
+        cases.push((list_text(&l), expected_list(&l)));
+        // many repeats of one token, then others
+        for reps in [1325usize, 1326, 1327, 3000] {
+            let mut l: Vec<(&Tok, &str)> = vec![(find("KK"), ":0.5"); reps];
+            l.push((find("QQ+"), ":0.25"));
+            l.push((find("AsKs"), ""));
+            cases.push((list_text(&l), expected_list(&l)));
+        }
+        // empty items in between (",,") do not consume anything
+        let mut t = vec!["".to_string(); 1400].join(",");
+        t.push_str(",JTs:0.5");
+        cases.push((t, expected_list(&[(find("JTs"), ":0.5")])));
+        let mut n = 0u64;
+        for (text, exp) in &cases {
+            n += 1;
+            if let Some(b) = check_range_text(text, exp) {
+                rep.violation(Violation { key: format!("range={}...({} bytes)...{}", &text[..text.len().min(24)], text.len(), &text[text.len().saturating_sub(24)..]), sub: "long-lists".into(), case: json!({"text": text}), expected: json!("every token of a long list applies, later ones last"), observed: b });
+            }
+        }
+        rep.sub("long-lists", "lists of 1,327 to 3,002 tokens: the explicit export of all 1326 combos followed by overriding tokens, one token repeated 1325/1326/1327/3000 times followed by two others, 1400 empty items followed by a token", n, n, false, json!({}));
+    }
+
     // (e) spaces at every offset; empty input
     let texts: Vec<String> = vec!["QQ+,A9s+:0.5,88-66,AQs-A9s:0.25,44,JTs,72o,AsKs".to_string(), "22+:0.3".into(), "AKo-A2o,KsAs:0".into(), "T9s+,T9o+:1.0".into()];
     let mut n_sp = 0u64;
